@@ -21,6 +21,9 @@ def deep_lines():
 def crossclass_lines():
     return gen.crossclass_lines()
 
+def long_value_lines():
+    return gen.long_value_lines()
+
 def keyword_lines():
     return gen.keyword_value_lines(vocab())
 
